@@ -26,11 +26,11 @@ type Engine struct {
 	idFunc      map[int]*ssa.Function
 	errGlobals  map[string]int // global name -> distinct nonzero id (immutable error values)
 	immGlobals  map[string]bool
-	initOnly    map[string]bool                     // field components only written on freshly allocated objects
-	tables      map[string]map[int64]*ssa.Function  // immutable global func tables
+	initOnly    map[string]bool                    // field components only written on freshly allocated objects
+	tables      map[string]map[int64]*ssa.Function // immutable global func tables
 	tableLen    map[string]int64
 	mapTables   map[string]map[int64]*ssa.Function // immutable global map[int]func tables
-	ifaceImpl   map[string][]*ssa.Function          // "Iface.method" -> implementations in package
+	ifaceImpl   map[string][]*ssa.Function         // "Iface.method" -> implementations in package
 	loadSeconds float64
 }
 
